@@ -37,7 +37,7 @@ def runLine (line : String) : Driver.Result :=
   | ["jl", _, defs, stdin, ext, y, i, o, l] => Driver.JlCase.runCase defs stdin ext y i o l
   | ["jlbad", _, what, run] => Driver.JlCase.runBad what run
   | ["jlkeep", _, what, a, b] => Driver.JlCase.runKeep what a b
-  | ["getter", _, row, name, key, ext, impl] => Driver.PathCase.runGetter row name key ext impl
+  | ["getter", prop, row, name, key, ext, impl] => Driver.PathCase.runGetter row name key ext impl prop
   | ["faultaccept", _, line, cut, how, impl] =>
     -- C16: a fragment delivered before a read failure is not a line of the input
     if impl.startsWith "ok" then ⟨"P", s!"faultaccept {line} cut={cut} {how}: impl [{impl}] violates C16: key=accepted-fragment-of-a-failed-read"⟩
